@@ -10,7 +10,7 @@ use proptest::prelude::*;
 use serde::{Deserialize, Serialize};
 use std::cmp::Ordering;
 
-pub const RULE: &str = "enumerated: every operator (17 broadcasting + 6 dot) x shape {scalar-scalar, list-scalar, scalar-list, list-list} x ordered pair of element types {number, string, boolean, null, list, record, mixed} x deterministic representatives (lengths 0,1,3, mismatched, ill-typed element at position k>0); random: operator x operands with random contents (numbers incl. NaN, +-inf, +-0), lengths 0..8, correlated lengths. Operands are materialised in a fresh heap, `l OP r` is evaluated through parser and evaluator and compared with a harness model applying an independent scalar operator per element. Non-trivial = a non-empty list operand with at least one successful element operation, or a designed failure (length mismatch / ill-typed element at position > 0); distinct by (operator, operands).";
+pub const RULE: &str = "enumerated: every operator (17 broadcasting + 6 dot) x shape {scalar-scalar, list-scalar, scalar-list, list-list} x ordered pair of element types {number, string, boolean, null, list, record, mixed} x deterministic representatives (lengths 0,1,3, mismatched, ill-typed element at position k>0); random: operator x operands with random contents (numbers incl. NaN, +-inf, +-0), lengths 0..8, correlated lengths. Operands are materialised in a fresh heap, `l OP r` - and `l OP l`, the same heap object on both sides - is evaluated through parser and evaluator and compared with a harness model applying an independent scalar operator per element. Non-trivial = a non-empty list operand with at least one successful element operation, or a designed failure (length mismatch / ill-typed element at position > 0); distinct by (operator, operands).";
 pub const ASSUMPTIONS: &[&str] = &[
     "IEEE-754 results are taken from Rust's own f64 operators (+ - * / % powf), the arithmetic the statement names",
     "for and/or with a left operand that already decides the result and a non-boolean right operand the statement does not say whether the right operand is inspected; the oracle accepts either outcome there",
@@ -196,6 +196,24 @@ impl Check for Broadcast {
                 c.r.to_source(false),
                 got,
                 want
+            );
+        }
+        // the same heap object on both sides (`l OP l`): the per-element law does not care
+        let got_alias = sess.probe(&format!("l {} l", c.op.text()));
+        let want_alias = model(c.op, &c.l, &c.l);
+        let ok_alias = match (&want_alias, &got_alias) {
+            (Expect::Value(w), Ok(g)) | (Expect::ValueOrError(w), Ok(g)) => w.same_nanclass(g),
+            (Expect::Error, Err(_)) | (Expect::ValueOrError(_), Err(_)) => true,
+            _ => false,
+        };
+        if !ok_alias {
+            fail!(
+                format!("{}:same-object:{}:{}", c.op.text(), tclass(&c.l), if got_alias.is_ok() { "wrong-value-or-missing-error" } else { "error-instead-of-value" }),
+                "`l {} l` (one heap object on both sides) with l = {} evaluated to {:?}; the per-element model expects {:?}",
+                c.op.text(),
+                c.l.to_source(false),
+                got_alias,
+                want_alias
             );
         }
         // dot operators never return a list
